@@ -274,11 +274,7 @@ def run_fix(ctx):
         ctx.counters.inc("threshold_near_skip")
         return
     het = [j for j in range(n_pos) if j not in fixed_allele]
-    if len(set(n_alleles)) > 1 and het:
-        # Observation O1: avoid start states with illegal alleles (see wl_assemble)
-        g0 = [np.array([[ctx.tape.int(0, n_alleles[j] - 1) for j in het] for _ in range(pl)], dtype=np.int8) for _ in range(cfg["chains"])]
-    else:
-        g0 = None
+    g0 = None
 
     inner = []  # per chain: list of cold states per iteration, observed at the seam
     seen = {"calls": []}
